@@ -85,6 +85,10 @@ func (e *Enc) call(ins ssa.Instruction, c *ssa.CallCommon, res *ssa.Call) {
 		return
 	}
 	callee := c.StaticCallee()
+	if callee == nil && e.ct != nil && e.ct.Opts["fn-dispatch"] != "" && !c.IsInvoke() {
+		e.dispatchCall(ins, c, res, args, argT)
+		return
+	}
 	if callee == nil {
 		if !e.funcValueCall(ins, c, res, args, argT) {
 			fv := e.val(c.Value)
@@ -433,6 +437,106 @@ func (e *Enc) havocKeyExcept(h *Heap, key, arr string) {
 // funcValueCall: calls through a function value whose type has a family contract (`//@ sig`): the caller proves the
 // family's preconditions (and that every pointer argument is non-nil); every library function used as a value of that
 // type is checked to require no more than the family grants (sigCheck).
+// dispatchCall: a call through a function value in a function whose contract lists the possible targets
+// (`opt fn-dispatch <name> ...`, bound methods as <method>$bound). It is proved that the value is one of them (class
+// `dispatch`); each target's contract is then applied under the condition that the value is that target. Targets must be
+// `pure` (they write nothing that existed before), so the heap effect of the call is allocation only.
+func (e *Enc) dispatchCall(ins ssa.Instruction, c *ssa.CallCommon, res *ssa.Call, args []Val, argT []types.Type) {
+	h := e.cur
+	pos := ins.Pos()
+	fv := e.val(c.Value)
+	sig := c.Signature()
+	e.oblige("nil", "call:"+descOf(e.exprText(c.Value, ins)), "", pos, e.guardGoal(app("distinct", fv.T, "nil")))
+	type target struct {
+		fn    *ssa.Function
+		ct    *Contract
+		bound bool
+		guard string
+		name  string
+	}
+	var ts []target
+	var alts []string
+	for _, nm := range strings.Fields(e.ct.Opts["fn-dispatch"]) {
+		bound := strings.HasSuffix(nm, "$bound")
+		base := strings.TrimSuffix(nm, "$bound")
+		fn := e.w.Funcs[base]
+		if fn == nil {
+			e.unsupp("fn-dispatch: unknown function %s", nm)
+			continue
+		}
+		ct := e.cs.For(base)
+		if ct == nil || !(ct.Pure || ct.Opts["frame-all"] != "") {
+			e.unsupp("fn-dispatch: target %s needs a `pure` (or frame-all) contract", nm)
+			continue
+		}
+		g := app("=", app("fnid", fv.T), ilit(globalID("func:"+nm)))
+		ts = append(ts, target{fn, ct, bound, g, nm})
+		alts = append(alts, g)
+	}
+	e.oblige("dispatch", descOf(e.exprText(c.Value, ins)), "", pos, e.guardGoal(or(alts...)))
+	pre := h.clone()
+	apre := e.allocCounter(h)
+	for _, t := range ts {
+		targs, targT := args, argT
+		if t.bound {
+			targs = append([]Val{{app("fnrecv", fv.T), "Ref"}}, args...)
+			targT = append([]types.Type{t.fn.Signature.Recv().Type()}, argT...)
+			e.oblige("nil", "recv:"+t.name, "", pos, e.guardGoal(implies(t.guard, app("distinct", app("fnrecv", fv.T), "nil"))))
+		}
+		var params []string
+		for _, p := range t.fn.Params {
+			params = append(params, p.Name())
+		}
+		envPre := e.callEnv(t.fn, t.fn.Signature, params, targs, targT, pre, pre, nil)
+		envPre.owner = "call to " + t.name
+		for i, r := range t.ct.Requires {
+			if tt, ok := e.evalClause(t.ct, r, envPre); ok {
+				e.oblige("pre", fmt.Sprintf("%s.%d", shortCallee(t.name), i), "", pos, e.guardGoal(implies(t.guard, tt)))
+			}
+		}
+	}
+	e.havocKey(h, "$A")
+	rs := e.freshResults(sig, h)
+	for _, r := range rs {
+		e.assert(e.refOld(r, h))
+	}
+	for _, t := range ts {
+		targs, targT := args, argT
+		if t.bound {
+			targs = append([]Val{{app("fnrecv", fv.T), "Ref"}}, args...)
+			targT = append([]types.Type{t.fn.Signature.Recv().Type()}, argT...)
+		}
+		var params []string
+		for _, p := range t.fn.Params {
+			params = append(params, p.Name())
+		}
+		envPost := e.callEnv(t.fn, t.fn.Signature, params, targs, targT, pre, h, rs)
+		envPost.owner = "call to " + t.name
+		for _, en := range t.ct.Ensures {
+			if tt, ok := e.evalClause(t.ct, en.Expr, envPost); ok {
+				e.assert(implies(and(e.reach[e.curBlock], t.guard), tt))
+			}
+		}
+		for _, fr := range t.ct.Fresh {
+			if b, ok := envPost.names[fr]; ok {
+				switch b.val.S {
+				case "Ref":
+					e.assert(implies(and(e.reach[e.curBlock], t.guard), or(app("=", b.val.T, "nil"), app(">", e.rootOf(b.val.T), apre))))
+				case "Slice":
+					e.assert(implies(and(e.reach[e.curBlock], t.guard), or(app("=", app("sarr", b.val.T), "nil"), app(">", e.rootOf(app("sarr", b.val.T)), apre))))
+				}
+			}
+		}
+		if t.ct.Trusted != "" {
+			e.trustedUsed["contract of "+t.name+" is assumed: "+t.ct.Trusted] = true
+		}
+	}
+	for i, r := range rs {
+		e.byteSliceEnters(h, r, sig.Results().At(i).Type(), e.reach[e.curBlock])
+	}
+	e.setResult(res, rs)
+}
+
 func (e *Enc) funcValueCall(ins ssa.Instruction, c *ssa.CallCommon, res *ssa.Call, args []Val, argT []types.Type) bool {
 	ct := e.cs.Sigs[types.TypeString(c.Value.Type().Underlying(), shortQual)]
 	if ct == nil {
